@@ -93,3 +93,23 @@ func jsonUnmarshal(f *Frame, c *ssa.CallCommon, args []Val, pos token.Pos) ([]Va
 	err := Val{vc.fresh("json_err", "Iface"), "Iface"}
 	return []Val{err}, true
 }
+
+func init() {
+	nonNilResults := func(f *Frame, c *ssa.CallCommon, args []Val, pos token.Pos) ([]Val, bool) {
+		res := f.freshResults(c, "ctx")
+		for _, r := range res {
+			switch r.S {
+			case "Iface":
+				f.vc.assume(not(eq(r.T, "inil")))
+			case "Int":
+				f.vc.assume(fmt.Sprintf("(> %s 0)", r.T))
+			}
+		}
+		f.vc.trust("context.WithCancel/WithTimeout/WithDeadline/Background return non-nil values")
+		return res, true
+	}
+	for _, n := range []string{"context.WithCancel", "context.WithTimeout", "context.WithDeadline", "context.Background", "context.TODO", "context.WithValue"} {
+		libExt[n] = nonNilResults
+		libExtWrites[n] = func(f *Frame, c *ssa.CallCommon) ([]string, bool) { return []string{"next"}, false }
+	}
+}
